@@ -13,7 +13,8 @@ Property theorems only (helper lemmas live in `Lemmas/DataReader.lean`, `Lemmas/
   five container contexts `Ctx` with `renderCtx`.
 * SPEC (`Model/DataReader.lean`, `Model/ValueSpec.lean`): `readData`/`readBinding` — how Nix reads a
   text of the data fragment (lexer rules of Nix for INT/FLOAT/ID/strings; a unary minus is accepted
-  where an operator expression may stand, never as a list element); `denote`/`expected` — the data a
+  where an operator expression may stand — binding value, top level, inside parentheses — never
+  bare as a list element); `denote`/`expected` — the data a
   Python value is; `ctxInDomain` — the property's domain; `ctxReadable` — the decidable side
   condition under which the code does keep the value.
 
@@ -34,6 +35,10 @@ theorem tie_literals :
     Gen.stringEscapesInterpolation = some stringEscapesInterpolation := by decide
 theorem tie_coerce_order :
     Gen.coerceOrder = some coerceOrder ∧ Gen.primitiveOrder = some primitiveOrder := by decide
+/-- `NixList` renders its items through `_coerce_list_item` (negative number literals in a
+    `Parenthesis`), probes them for newlines through plain `coerce_expression`. -/
+theorem tie_list_item_paren :
+    Gen.negLiteralTests = some negLiteralTests ∧ Gen.listItemCoercers = some listItemCoercers := by decide
 
 /-- The model's escaper is the interpreter of the tied table (as in C12). -/
 theorem escapeNix_table (interp : Bool) (c : Char) (cs : Text) (r : Text)
@@ -47,7 +52,7 @@ theorem escapeNix_table (interp : Bool) (c : Char) (cs : Text) (r : Text)
     it has no `${`, its rendered literal is read back by Nix as exactly that string. -/
 theorem string_roundtrip (s : Text) (h : hasInterp s = false) (indent : Nat) (inline : Bool) :
     readData (renderElem (.str s) indent inline) = some (.str s) := by
-  have hl := lex_renderElem (.str s) false indent inline [] (by simp [elemReadable, h]) rfl
+  have hl := lex_renderElem (.str s) indent inline [] (by simp [elemReadable, h]) rfl
   simp only [List.append_nil, lexData_nil, Option.map_some] at hl
   simp [readData, hl, toksE, pValue, pElem]
 
@@ -86,8 +91,8 @@ theorem readBinding_renderBinding (k : Text) (x : Expr) (indent : Nat) (inline :
 
 /-- **Partial theorem (what holds of the code).** In every container context of the construction
     API, a value satisfying the decidable side condition `ctxReadable` (identifier keys, strings
-    without `${`; no negative number as a list element, floats whose repr is a Nix float token,
-    integers within 64 bits) renders to text that Nix reads back as exactly that value. -/
+    without `${`; floats whose repr is a Nix float token, integers within 64 bits) renders to text
+    that Nix reads back as exactly that value — negative numbers included, wherever they stand. -/
 theorem roundtrip_partial (c : Ctx) (h : ctxReadable c = true) :
     readCtx c (renderCtx c) = some (expected c) := by
   cases c with
@@ -125,9 +130,9 @@ theorem roundtrip_partial (c : Ctx) (h : ctxReadable c = true) :
     simp only [readCtx, renderCtx, expected]
     rw [readData_renderExpr _ 0 false h1, h2, denoteBs_bindAll]
 
-/-- For values of the property's domain the side condition is exactly "avoids the three documented
-    defects": no negative number as a list element, no float whose repr lacks a `.`, no integer
-    outside 64 bits (`ctxAvoids`; the harness classifies failing inputs with the same tests). -/
+/-- For values of the property's domain the side condition is exactly "avoids the two documented
+    defects": no float whose repr lacks a `.`, no integer outside 64 bits (`ctxAvoids`; the harness
+    classifies failing inputs with the same tests). -/
 theorem readable_iff_avoids (c : Ctx) (hd : ctxInDomain c = true) : ctxReadable c = ctxAvoids c :=
   ctxReadable_eq_avoids c hd
 
@@ -137,10 +142,39 @@ theorem float_repr_readable_iff_dot (r : Text) (h : isPyFloatRepr r = true) :
   pyFloatRepr_nixFloat_iff_dot r h
 
 /-- **The property on its domain, minus the documented defects.** Every value of the domain that
-    avoids the three defects is read back exactly, in every context. -/
+    avoids the two defects is read back exactly, in every context. -/
 theorem roundtrip_domain (c : Ctx) (hd : ctxInDomain c = true) (ha : ctxAvoids c = true) :
     readCtx c (renderCtx c) = some (expected c) :=
   roundtrip_partial c (by rw [readable_iff_avoids c hd]; exact ha)
+
+/-- **Negative numbers as list elements** (repaired defect C13-neg-number-in-list; this replaces
+    the former counterexample `cex_neg_in_list`). A list of integers of either sign, at any indent
+    and inline flag, reads back as exactly those integers: a negative element is written `(-n)`. -/
+theorem neg_in_list_roundtrip (is : List Int) (h : ∀ i ∈ is, i.natAbs ≤ nixIntMax) (indent : Nat)
+    (inline : Bool) :
+    readData (renderElem (.list (is.map Elem.int)) indent inline) = some (.list (is.map Data.int)) := by
+  have hr : elemsReadable (is.map Elem.int) = true := by
+    induction is with
+    | nil => rfl
+    | cons i is ih =>
+      simp only [List.map_cons, elemsReadable, elemReadable, Bool.and_eq_true, decide_eq_true_eq]
+      exact ⟨h i (by simp), ih (fun j hj => h j (by simp [hj]))⟩
+  have hd : ∀ js : List Int, denoteEs (js.map Elem.int) = js.map Data.int := by
+    intro js
+    induction js with
+    | nil => rfl
+    | cons j js ih => simp only [List.map_cons, denoteEs, denoteE, ih]
+  have := readData_renderExpr (.raw (.list (is.map Elem.int))) indent inline
+    (by simpa [exprReadable, elemReadable] using hr)
+  simpa [renderExpr, denoteX, denoteE, hd is] using this
+
+/-- The spelling: `NixList([-1]).rebuild()` is `[ (-1) ]`, `[1, -2.5]` is broken over lines with
+    the negative float in parentheses; in binding position the minus stays bare. -/
+theorem neg_in_list_spelling :
+    renderCtx (.list [.int (-1)]) = "[ (-1) ]".toList ∧
+    renderCtx (.list [.int 1, .float "-2.5".toList]) = "[\n  1\n  (-2.5)\n]".toList ∧
+    renderCtx (.binding "k".toList (.elem (.list [.int (-1)]))) = "k = [ (-1) ];".toList ∧
+    renderCtx (.binding "k".toList (.elem (.int (-1)))) = "k = -1;".toList := by decide
 
 /-! ## 3. The full statement, and where the code violates it -/
 
@@ -149,14 +183,6 @@ theorem roundtrip_domain (c : Ctx) (hd : ctxInDomain c = true) (ha : ctxAvoids c
     None, every finite float's repr), in every container context. False of the current code. -/
 def RoundTripFull : Prop :=
   ∀ c : Ctx, ctxInDomain c = true → readCtx c (renderCtx c) = some (expected c)
-
-/-- `NixList([-1]).rebuild()` is `[ -1 ]`: not a list holding the number -1 (a syntax error in Nix).
-    Open known finding C13-neg-number-in-list; replayed on the implementation by the check. -/
-theorem cex_neg_in_list : ¬ RoundTripFull := by
-  intro h
-  have h1 := h (.list [.int (-1)]) (by decide)
-  have h2 : (readCtx (.list [.int (-1)]) (renderCtx (.list [.int (-1)]))).isSome = false := by decide
-  rw [h1] at h2; cases h2
 
 /-- `NixList([1e16]).rebuild()` is `[ 1e+16 ]`: `1e+16` is not a Nix float token.
     Open known finding C13-float-exponent-no-dot. -/
@@ -229,6 +255,6 @@ example : ctxInDomain (.setItemOn [("a".toList, .elem (.int 1))] true "k".toList
     ctxAvoids (.setItemOn [("a".toList, .elem (.int 1))] true "k".toList (.dict [("x".toList, .elem (.float "1.5e-07".toList))])) = true := by
   decide
 example : ctxInDomain (.list [.float "1e+16".toList, .int (-1)]) = true ∧
-    ctxReadable (.list [.float "1e+16".toList]) = false ∧ ctxReadable (.list [.int (-1)]) = false := by decide
+    ctxReadable (.list [.float "1e+16".toList]) = false ∧ ctxReadable (.list [.int (-1), .float "-0.5".toList]) = true := by decide
 
 end Nima.C13
